@@ -387,6 +387,11 @@ func wfaultWorker(p *wfaultParams, st *Stats) {
 			for pi, kind := range paths {
 				for si, stack := range stacks {
 					stride := it.stride
+					if p.tier == "thorough" && it.large && !(pi == exPi && si == exSi) {
+						// thorough: every offset of a large output on one (path, stack) pair per
+						// document and configuration, the other pairs strided (boundaries kept)
+						stride = 23
+					}
 					if p.tier != "thorough" {
 						// quick: full enumeration on one (path, stack) pair per document chosen by
 						// seed, the other pairs strided; all pairs see the boundaries
